@@ -20,10 +20,14 @@ Record facts := {
 }.
 
 Definition facts_ok (f : facts) : bool :=
-  (k_wei_per_unibi f =? WEI) && (0 <? k_base_fee_unibi f) && (k_refund_quotient f =? 5) &&
+  (k_wei_per_unibi f =? WEI) && (0 <? k_base_fee_unibi f) &&
   k_fee_is_native_of_effective_fee f && k_fee_deducted_from_signer f &&
   k_refund_is_native_of_leftover_times_price f && k_refund_from_fee_collector f && k_refund_to_sender f &&
-  k_leftover_is_limit_minus_used f && k_refund_price_is_effective_price f && k_refund_cap_applied f.
+  k_leftover_is_limit_minus_used f && k_refund_price_is_effective_price f.
+
+(** informational only (how GasUsed itself is computed belongs to C03, the payment is exact for whatever GasUsed is
+    reported): the EIP-3529 cap min(counter, gasUsed / quotient) is applied *)
+Definition refund_cap_seen (f : facts) : bool := k_refund_cap_applied f.
 
 (** decorators by constructor name: the balance check and CanTransfer precede the one fee deduction,
     and nothing named like a fee deduction appears twice *)
